@@ -495,10 +495,12 @@ def resolvline_jobs(tier):
         if key == "domain":
             kd.append("-DSINGLE_DOMAIN")
         v = v0
-        if tier == "quick" and key in ("options", "sortlist", "nameserver"):
+        if key in ("options", "sortlist", "nameserver"):
             # measured unloaded (value bytes 2/2/3): 85-113 s / 92-126 s / 100 s and 6-8 GB each; on the shared machine they were
-            # killed for memory.  Registered in the thorough tier only; their value parsers are the c15_options_* / c15_sortlist_* /
-            # c15_nameserver_* jobs of the quick tier.
+            # killed for memory, and in the thorough tier they ended without a verdict (solver out of 12 GB) more often than not:
+            # NOT registered in either tier.  Their value parsers are the c15_options_* / c15_sortlist_* / c15_nameserver_*
+            # jobs; the line-level dispatch for these three keywords is exercised by the concrete lines of the
+            # c15_resolvline_meta_* jobs only.
             continue
         if key == "options":
             kd.append("-DNOBLANK")
